@@ -48,6 +48,8 @@ type Flags struct {
 	DeepLoops                      bool // loop nesting up to 6 instead of 3
 	Shadow                         bool // loop variables / params reuse outer names
 	BigInts                        bool
+	SafeCompact                    bool // no bare-expression or ++/-- statements (their compact printed form glues to the next statement: recorded finding)
+	FloatNoAssoc                   bool // float arithmetic only with - and / (the printer regroups a+(b+c) and a*(b*c): recorded finding)
 	NoIndexAssign                  bool // no xs[i]=v / m.k=v / del(m.k): in-place mutation of large containers is a recorded C06 finding
 }
 
@@ -269,6 +271,15 @@ func wrapNeg(s string) string {
 	return s
 }
 
+// lit0 renders a literal; under SafeCompact negative numbers are written (0 - n) so that no statement
+// can start with a unary minus once the printer has dropped the parentheses.
+func (g *G) negSafe(s string) string {
+	if g.F.SafeCompact && strings.HasPrefix(s, "-") {
+		return "(0 - " + s[1:] + ")"
+	}
+	return wrapNeg(s)
+}
+
 func (g *G) StrLit() string {
 	return strconv.Quote(core.Pick(g.R, strPool))
 }
@@ -280,9 +291,9 @@ func (g *G) FloatLit() string {
 func (g *G) lit(t Ty) string {
 	switch t {
 	case TInt:
-		return wrapNeg(g.IntLit())
+		return g.negSafe(g.IntLit())
 	case TFloat:
-		return wrapNeg(g.FloatLit())
+		return g.negSafe(g.FloatLit())
 	case TStr:
 		return g.StrLit()
 	case TBool:
@@ -400,6 +411,9 @@ func (g *G) Expr(t Ty, d int) string {
 		case 5:
 			return "(" + g.Expr(TInt, d+1) + " " + core.Pick(r, []string{"&", "|", "^"}) + " " + g.Expr(TInt, d+1) + ")"
 		case 6:
+			if g.F.SafeCompact {
+				return "(0 - " + g.Expr(TInt, d+1) + ")"
+			}
 			return "(-" + g.Expr(TInt, d+1) + ")"
 		case 7:
 			if ct := core.Pick(r, []Ty{TStr, TArr, TMap}); g.enabled(ct) {
@@ -467,9 +481,17 @@ func (g *G) Expr(t Ty, d int) string {
 		}
 		switch r.Intn(4) {
 		case 0, 1:
-			return "(" + g.Expr(TFloat, d+1) + " " + core.Pick(r, []string{"+", "-", "*", "/"}) + " " + g.Expr(TFloat, d+1) + ")"
+			ops := []string{"+", "-", "*", "/"}
+			if g.F.FloatNoAssoc {
+				ops = []string{"-", "/"}
+			}
+			return "(" + g.Expr(TFloat, d+1) + " " + core.Pick(r, ops) + " " + g.Expr(TFloat, d+1) + ")"
 		case 2:
-			return "(" + g.Expr(TFloat, d+1) + " " + core.Pick(r, []string{"+", "*"}) + " " + g.Expr(TInt, d+1) + ")"
+			ops := []string{"+", "*"}
+			if g.F.FloatNoAssoc {
+				ops = []string{"-"}
+			}
+			return "(" + g.Expr(TFloat, d+1) + " " + core.Pick(r, ops) + " " + g.Expr(TInt, d+1) + ")"
 		default:
 			return "sqrt(" + g.lit(TFloat) + " * " + g.lit(TFloat) + ")"
 		}
@@ -571,7 +593,7 @@ func (g *G) rhs(t Ty) string {
 func (g *G) printStmt() string {
 	if g.inFunc != nil {
 		if !g.F.PrintInFuncs {
-			return g.Expr(TInt, 1)
+			return g.bare(g.Expr(TInt, 1))
 		}
 		g.inFunc.Prints = true
 	}
@@ -584,8 +606,20 @@ func (g *G) printStmt() string {
 	return core.Pick(g.R, []string{"println", "println", "print"}) + "(" + strings.Join(parts, ", ") + ")"
 }
 
+// bare turns an expression into a statement.
+func (g *G) bare(e string) string {
+	if g.F.SafeCompact {
+		g.seq++
+		if g.inFunc != nil || g.nest > 0 {
+			return "u" + strconv.Itoa(g.seq) + " := " + e
+		}
+		return "u" + strconv.Itoa(g.seq) + " = " + e
+	}
+	return e
+}
+
 func (g *G) incdec() string {
-	if ws := g.visible(TInt, true); len(ws) > 0 && g.F.IncDec {
+	if ws := g.visible(TInt, true); len(ws) > 0 && g.F.IncDec && !g.F.SafeCompact {
 		v := core.Pick(g.R, ws)
 		g.noteWrite(v)
 		g.noteRead(v)
@@ -732,7 +766,7 @@ func (g *G) pushLoopVar(v string) {
 func (g *G) Stmt(allowCtl bool) string {
 	r := g.R
 	if g.cost > 15000 {
-		return g.Expr(TInt, 3)
+		return g.bare(g.Expr(TInt, 3))
 	}
 	switch k := r.Intn(20); {
 	case k < 5:
